@@ -152,36 +152,99 @@ lem('c18_conn_open', ['htp_connection.c'], CONN_H,
 # 4. multipart Content-Disposition ; htp_mpart_part_destroy
 # ======================================================================================================================
 CD_H = r'''
-static void cd_case(const unsigned char *a, int gave_up, int type) {          /* CDN is a constant */
+static void cd_case(const unsigned char *a, int gave_up, int type, int has_name, int has_file) {          /* CDN is a constant */
   htp_mpartp_t *parser = malloc(sizeof(*parser));
   htp_multipart_part_t *part = malloc(sizeof(*part));
   htp_header_t *h = malloc(sizeof(*h));
   htp_table_t *t = malloc(sizeof(*t)); void **el = C18_ELEMS_RAW(8);
   bstr *name = C18_BSTR_RAW(19), *key = C18_BSTR_RAW(19), *value = C18_BSTR_RAW(CDN);
-#define CLEAN free(parser); free(part); free(h); free(t); free(el); free(name); free(key); free(value)
+  bstr *name0 = C18_BSTR_RAW(1), *fname0 = C18_BSTR_RAW(1); htp_file_t *file0 = malloc(sizeof(*file0));
+#define CLEAN free(parser); free(part); free(h); free(t); free(el); free(name); free(key); free(value); free(name0); free(fname0); free(file0)
   C18_NEED(parser, CLEAN) C18_NEED(part, CLEAN) C18_NEED(h, CLEAN) C18_NEED(t, CLEAN) C18_NEED(el, CLEAN) C18_NEED(name, CLEAN) C18_NEED(key, CLEAN) C18_NEED(value, CLEAN)
-  *parser = (htp_mpartp_t){0}; *part = (htp_multipart_part_t){0}; *h = (htp_header_t){0};
+  C18_NEED(name0, CLEAN) C18_NEED(fname0, CLEAN) C18_NEED(file0, CLEAN)
+  *parser = (htp_mpartp_t){0}; *part = (htp_multipart_part_t){0}; *h = (htp_header_t){0}; *file0 = (htp_file_t){0};
   C18_BSTR_INIT(name, 19, "content-disposition"); C18_BSTR_INIT(key, 19, "content-disposition"); C18_BSTR_INIT(value, CDN, a);
+  C18_BSTR_INIT(name0, 1, "n"); C18_BSTR_INIT(fname0, 1, "f"); file0->fd = -1; file0->filename = fname0;
   C18_TABLE_INIT(t, el, 8);                                                     /* = htp_table_create(4) in htp_mpart_part_create */
   h->name = name; h->value = value;
   C18_TABLE_PUT(t, key, h, HTP_TABLE_KEYS_COPIED);                              /* = htp_table_add(part->headers, h->name, h) in htp_mpartp_parse_header */
   part->parser = parser; part->type = type; part->headers = t;
+  /* the state of the parameter loop after earlier parameters: the part may already own a name and / or a file record */
+  if (has_name) part->name = name0; else free(name0);
+  if (has_file) part->file = file0; else { free(fname0); free(file0); }
   htp_status_t rc = htp_mpart_part_parse_c_d(part);
   VASSERT(rc == HTP_OK || rc == HTP_DECLINED || rc == HTP_ERROR, "OK, DECLINED or ERROR");
-#ifdef KNOWN_F_C18_MPART_CD_FILE
-  /* finding c18_mpart_cd_file: a failed filename copy frees part->file but leaves the stale pointer behind */
-  if (rc == HTP_ERROR && part->file != NULL && !__CPROVER_r_ok(part->file, sizeof(htp_file_t))) part->file = NULL;
-#endif
+  /* (finding c18_mpart_cd_file - stale part->file after a failed file-name copy - was repaired in /repo by e20b396 while this unit
+   *  was being written; the unit runs without a KNOWN_F carve-out and the mutant that removes the repair is killed) */
   if (part->file != NULL) VASSERT(__CPROVER_r_ok(part->file, sizeof(htp_file_t)) && part->file->filename != NULL && part->file->fd == -1, "a file record, when present, is live and has a name");
+  bstr *handed_over = (gave_up && part->type == MULTIPART_PART_TEXT) ? part->name : NULL;   /* then owned by tx->request_params */
   htp_mpart_part_destroy(part, gave_up);                                        /* htp_mpartp_destroy: every part in the list */
+  bstr_free(handed_over);                                                       /* htp_tx_destroy_incomplete: bstr_free(param->name) */
   free(parser);
 }
-void HARNESS(void) { unsigned char in[CDN]; int gave_up, type;
+void HARNESS(void) { unsigned char in[CDN]; int gave_up, type, has_name, has_file;
   VASSUME(in[0] == 'f' && in[1] == 'o' && in[2] == 'r' && in[3] == 'm' && in[4] == '-' && in[5] == 'd' && in[6] == 'a' && in[7] == 't' && in[8] == 'a');
-  cd_case(in, gave_up, type); CANARY(); }'''
+  cd_case(in, gave_up, type, has_name, has_file); CANARY(); }'''
+CD_US = ','.join(['htp_mpart_part_parse_c_d.6:3'] + ['htp_mpart_part_parse_c_d.%d:15' % i for i in range(6)] + ['htp_mpart_decode_quoted_cd_value_inplace.0:15'])
 lem('c18_mpart_cd', ['htp_multipart.c'], CD_H,
     'htp_mpart_part_parse_c_d ; htp_mpart_part_destroy on a part laid out as htp_mpart_part_create/htp_mpartp_parse_header lay it out (header table with copied key, built field by field): name, file record and file name are freed exactly once whichever allocation fails and wherever the syntax check gives up; no leak',
-    ['C-D header value: "form-data" followed by every byte string of exactly CDN-9 bytes (room for name and filename parameters in either order, repeated and unknown parameters, broken quoting)',
-     'real htp_table.c, htp_list.c, bstr.c linked; part type and gave_up_data arbitrary',
-     'KNOWN_F_C18_MPART_CD_FILE: the harness NULLs part->file when it is a dead pointer after an HTP_ERROR return (finding c18_mpart_cd_file); everything else is checked'],
-    defs={'CDN': 31, 'KNOWN_F_C18_MPART_CD_FILE': 1}, link=['htp_table.c', 'htp_list.c', 'bstr.c'], unwind=33)
+    ['C-D header value: "form-data" followed by every byte string of exactly 13 bytes (one complete name= or filename= parameter, a second incomplete one, unknown parameters, broken quoting, escapes)',
+     'headers with several parameters: covered by starting from a part that may ALREADY own a name and/or a file record (the state of the parameter loop after earlier parameters; a superset of what is reachable at entry)',
+     'bstr_dup_mem exchanged at its call sites (goto-instrument --replace-calls) by a fixed-capacity stand-in (contracts/c18_alloc.h): symbolic-size copy + in-place unquoting does not encode; real htp_table.c, htp_list.c, bstr.c linked otherwise',
+     'part type and gave_up_data arbitrary; when the name was handed over to the transaction (gave_up_data and a TEXT part) the harness frees it as htp_tx_destroy_incomplete does',
+     ],
+    defs={'CDN': 22, 'C18_DUPCAP': 16}, link=['htp_table.c', 'htp_list.c', 'bstr.c'], unwind=23, unwindset=CD_US,
+    pre_instrument=['--replace-calls', 'bstr_dup_mem:c18_bstr_dup_mem'])
+
+# ======================================================================================================================
+# 5. urlencoded body: parameters move from the parser's table to the transaction ; htp_tx_destroy_incomplete (REAL)
+# ======================================================================================================================
+TXLINK = ['htp_transaction.c', 'htp_urlencoded.c', 'htp_table.c', 'htp_list.c', 'bstr.c', 'bstr_builder.c', 'htp_connection.c',
+          'htp_connection_parser.c', 'htp_util.c', 'htp_multipart.c', 'htp_hooks.c', 'htp_config.c', 'htp_decompressors.c']
+URLB_H = r'''
+void c18_nop_urldecode(htp_tx_t *tx, bstr *b) { VASSERT(__CPROVER_r_ok(b, sizeof(bstr)), "decoded string is live"); }
+static void urlb_case(int npairs, int state) {                        /* npairs is a constant */
+  htp_tx_t *tx = malloc(sizeof(*tx)); htp_cfg_t *cfg = malloc(sizeof(*cfg)); htp_urlenp_t *up = malloc(sizeof(*up));
+  htp_table_t *tp = malloc(sizeof(*tp)); void **tpe = C18_ELEMS_RAW(2);      /* tx->request_params: room for ONE pair, the second add must grow */
+  htp_table_t *pp = malloc(sizeof(*pp)); void **ppe = C18_ELEMS_RAW(4);      /* the parser's table: two pairs */
+  bstr_builder_t *bb = malloc(sizeof(*bb)); htp_list_array_t *pl = malloc(sizeof(*pl)); void **ple = C18_ELEMS_RAW(2);
+  bstr *n0 = C18_BSTR_RAW(1), *v0 = C18_BSTR_RAW(1), *n1 = C18_BSTR_RAW(1), *v1 = C18_BSTR_RAW(1);
+#define CLEAN free(tx); free(cfg); free(up); free(tp); free(tpe); free(pp); free(ppe); free(bb); free(pl); free(ple); free(n0); free(v0); free(n1); free(v1)
+  C18_NEED(tx, CLEAN) C18_NEED(cfg, CLEAN) C18_NEED(up, CLEAN) C18_NEED(tp, CLEAN) C18_NEED(tpe, CLEAN) C18_NEED(pp, CLEAN) C18_NEED(ppe, CLEAN)
+  C18_NEED(bb, CLEAN) C18_NEED(pl, CLEAN) C18_NEED(ple, CLEAN) C18_NEED(n0, CLEAN) C18_NEED(v0, CLEAN) C18_NEED(n1, CLEAN) C18_NEED(v1, CLEAN)
+  *tx = (htp_tx_t){0}; *cfg = (htp_cfg_t){0}; *up = (htp_urlenp_t){0};
+  C18_BSTR_INIT(n0, 1, "a"); C18_BSTR_INIT(v0, 1, "1"); C18_BSTR_INIT(n1, 1, "b"); C18_BSTR_INIT(v1, 1, "2");
+  C18_TABLE_INIT(tp, tpe, 2); C18_TABLE_INIT(pp, ppe, 4); C18_LIST_INIT(pl, ple, 2); bb->pieces = pl;
+  if (npairs >= 1) C18_TABLE_PUT(pp, n0, v0, HTP_TABLE_KEYS_ADOPTED); else { free(n0); free(v0); }      /* htp_urlenp_add_field_piece: htp_table_addn(params, name, value) */
+  if (npairs >= 2) C18_TABLE_PUT(pp, n1, v1, HTP_TABLE_KEYS_ADOPTED); else { free(n1); free(v1); }
+  tx->cfg = cfg; tx->is_config_shared = HTP_CONFIG_SHARED; tx->request_params = tp;                      /* as after htp_tx_create */
+  up->tx = tx; up->params = pp; up->_bb = bb; up->argument_separator = '&'; up->decode_url_encoding = 1; up->_state = state;   /* as after htp_urlenp_create + parsing */
+  tx->request_urlenp_body = up;
+  htp_tx_data_t d; d.tx = tx; d.data = NULL; d.len = 0; d.is_last = 1;                                    /* end-of-body marker */
+  htp_status_t rc = htp_ch_urlencoded_callback_request_body_data(&d);
+  VASSERT(rc == HTP_OK || rc == HTP_ERROR, "OK or ERROR");
+  if (rc == HTP_OK) VASSERT(up->params == NULL && htp_table_size(tx->request_params) == (size_t) npairs, "OK: every pair moved, the parser gave its table up");
+#ifdef KNOWN_F_C18_URLENC_PARAMS
+  /* finding c18_urlenc_params: after a failure in the middle of the move the pairs already moved are owned by BOTH tables.
+   * Harness-side repair = roll the move back: drop the transaction's records, the strings stay with the parser. */
+  if (rc == HTP_ERROR && up->params != NULL) {
+    for (size_t i = 0, n = htp_table_size(tx->request_params); i < n; i++) free(htp_table_get_index(tx->request_params, i, NULL));
+    htp_table_clear_ex(tx->request_params);
+  }
+#endif
+  htp_tx_destroy_incomplete(tx);                                                                         /* REAL teardown: parsers, parameters, tables */
+  free(cfg);
+}
+void HARNESS(void) { int state; VASSUME(state == HTP_URLENP_STATE_KEY || state == HTP_URLENP_STATE_VALUE);
+  int np; VASSUME(np >= 0 && np <= 2);
+  if (np == 0) urlb_case(0, state); if (np == 1) urlb_case(1, state); if (np == 2) urlb_case(2, state);
+  CANARY(); }'''
+lem('c18_urlenc_body', ['htp_content_handlers.c'], URLB_H,
+    'htp_ch_urlencoded_callback_request_body_data at end of body ; REAL htp_tx_destroy_incomplete (htp_urlenp_destroy, parameter loop, htp_table_destroy): the 0..2 parsed pairs are owned by exactly one table at teardown whichever allocation fails (param record, growth of tx->request_params, the empty strings of the final field); nothing leaks on success',
+    ['transaction, configuration, urlencoded parser, its table (0, 1 or 2 adopted pairs) and string builder laid out field by field as htp_tx_create / htp_urlenp_create / htp_urlenp_add_field_piece leave them; one-byte names and values',
+     'tx->request_params has room for one pair, so the second move exercises the growth path and its failure; no parameter_processor',
+     'htp_tx_urldecode_params_inplace (no allocation; in-place decoder, C12/C15) exchanged at its call sites by a stand-in that requires a live bstr',
+     'the other transaction fields are NULL (htp_tx_destroy_incomplete handles them by its NULL tests; no connection attached)',
+     'KNOWN_F_C18_URLENC_PARAMS: after HTP_ERROR with the parser table still alive the harness rolls the partial move back (frees the htp_param_t records, empties tx->request_params) before the teardown (finding c18_urlenc_params); everything else is checked'],
+    defs={'KNOWN_F_C18_URLENC_PARAMS': 1}, link=TXLINK, unwind=6,
+    pre_instrument=['--replace-calls', 'htp_tx_urldecode_params_inplace:c18_nop_urldecode'])
